@@ -234,6 +234,7 @@ func (x *fnv) modelCall(s *State, fo *types.Func, recv *Value, args []Value, cal
 		return x.modelErrorsAs(s, args, call)
 	case "reflect.TypeOf":
 		x.p.noteModel("reflect.TypeOf: the dynamic type id of the interface value (nil for a nil interface)")
+		s.Assume(c.Implies(c.Ne(args[0].Term, c.Int(0)), c.Ne(x.dyn(args[0].Term), c.Int(0)))) // a non-nil interface value has a type
 		return one(Value{T: fo.Type().(*types.Signature).Results().At(0).Type(), Term: x.dyn(args[0].Term)})
 	case "reflect.SliceOf", "reflect.PtrTo", "reflect.PointerTo", "reflect.New", "reflect.Zero":
 		// library precondition: these panic on a nil reflect.Type
@@ -246,6 +247,15 @@ func (x *fnv) modelCall(s *State, fo *types.Func, recv *Value, args []Value, cal
 			return one(Value{T: rt, Term: r})
 		}
 		return one(x.h.freshValue(s, rt, "reflect_"+fo.Name()))
+	case "(reflect.Type).Kind", "(reflect.Type).Implements", "(reflect.Type).AssignableTo", "(reflect.Type).Elem", "(reflect.Type).Key", "(reflect.Type).String", "(reflect.Type).Name":
+		// a method call on a nil reflect.Type is a nil-interface method call: it panics. Checked for types obtained from
+		// reflect.TypeOf (nil for a nil interface value); a reflect.Type read from a field or returned by an opaque
+		// reflect call is assumed valid, as before
+		if isDynTerm(recv.Term) {
+			x.safe(s, "nilrtype", c.Not(c.Eq(recv.Term, c.Int(0))), call.Pos())
+		}
+	}
+	switch full {
 	case "(reflect.Type).Kind":
 		return one(Value{T: fo.Type().(*types.Signature).Results().At(0).Type(), Term: x.rtKind(s, recv.Term)})
 	case "(reflect.Type).Implements":
@@ -472,3 +482,8 @@ func (x *fnv) preModelCall(s *State, fo *types.Func, call *ast.CallExpr) ([]Valu
 }
 
 const onceRegionName = "ONCE"
+
+// isDynTerm reports whether t is the dynamic-type id of an interface value (the model of reflect.TypeOf).
+func isDynTerm(t *Term) bool {
+	return t != nil && t.Op == "app" && t.Name == "dyn"
+}
